@@ -37,6 +37,7 @@ type caseA struct {
 	Frags      []int  `json:"fragments,omitempty"`
 	Corrupt    string `json:"corrupt"` // none, md5, sha256, checksum-header, trailer-checksum, payload-flip, chunk-sig, trailer-sig, decoded-larger, decoded-smaller, short-body, truncate-chunk, extra-bytes, chunk-size-larger
 	Arg        int    `json:"arg"`
+	Near       int    `json:"near,omitempty"` // md5 / checksum-header / trailer-checksum: 0 = the digest of other content, 1 = the right digest with the case of one letter changed (another value in base64), 2 = ... with its last character replaced by one that differs in a data bit, 3 = ... in a padding bit (no canonical base64 text)
 	Proc       bool   `json:"proc,omitempty"` // real gateway process over TCP
 }
 
@@ -90,6 +91,54 @@ func getWorld(c caseA) (*world, error) {
 	return w, nil
 }
 
+const b64alphabet = "ABCDEFGHIJKLMNOPQRSTUVWXYZabcdefghijklmnopqrstuvwxyz0123456789+/"
+
+// nearMiss: a base64 digest that differs from good as little as a text can while still denoting other bytes.
+func nearMiss(good, other string, near, arg int) string {
+	switch near {
+	case 1:
+		var at []int
+		for i := 0; i < len(good); i++ {
+			if ch := good[i]; (ch >= 'a' && ch <= 'z') || (ch >= 'A' && ch <= 'Z') {
+				at = append(at, i)
+			}
+		}
+		if len(at) == 0 {
+			return other
+		}
+		b := []byte(good)
+		b[at[arg%len(at)]] ^= 0x20
+		return string(b)
+	case 2:
+		t := strings.TrimRight(good, "=")
+		pad := len(good) - len(t)
+		if len(t) == 0 {
+			return other
+		}
+		idx := strings.IndexByte(b64alphabet, t[len(t)-1])
+		if idx < 0 {
+			return other
+		}
+		// the lowest 2*pad bits of the last character are padding; flip the lowest bit that is data
+		idx ^= 1 << (2 * pad)
+		return t[:len(t)-1] + string(b64alphabet[idx&63]) + good[len(t):]
+	case 3:
+		// ... flip a padding bit: not the encoding of any digest (a lenient decoder reads the right one out of it)
+		t := strings.TrimRight(good, "=")
+		pad := len(good) - len(t)
+		idx := -1
+		if len(t) > 0 {
+			idx = strings.IndexByte(b64alphabet, t[len(t)-1])
+		}
+		if idx < 0 || pad == 0 {
+			return other
+		}
+		idx ^= 1 << (arg % (2 * pad))
+		return t[:len(t)-1] + string(b64alphabet[idx&63]) + good[len(t):]
+	}
+	return other
+}
+
 func chunkMode(m string) string {
 	switch m {
 	case "chunked-signed":
@@ -114,7 +163,7 @@ func buildUpload(c caseA, path string, query []s3c.KV, payload []byte) (r *s3c.R
 	if c.WithMD5 {
 		v := s3c.MD5B64(payload)
 		if c.Corrupt == "md5" {
-			v, effective = s3c.MD5B64(other), true
+			v, effective = nearMiss(v, s3c.MD5B64(other), c.Near, c.Arg), true
 		}
 		r.Set("Content-MD5", v)
 	}
@@ -122,7 +171,7 @@ func buildUpload(c caseA, path string, query []s3c.KV, payload []byte) (r *s3c.R
 	if c.WithCsum && cm == "" {
 		v := s3c.Checksum(c.Algo, payload)
 		if c.Corrupt == "checksum-header" {
-			v, effective = s3c.Checksum(c.Algo, other), true
+			v, effective = nearMiss(v, s3c.Checksum(c.Algo, other), c.Near, c.Arg), true
 		}
 		r.Set("x-amz-checksum-"+c.Algo, v)
 	}
@@ -220,7 +269,7 @@ func buildUpload(c caseA, path string, query []s3c.KV, payload []byte) (r *s3c.R
 			fs := fieldsOf(s3c.FChecksum)
 			if len(fs) > 0 {
 				good := s3c.Checksum(c.Algo, payload)
-				bad := s3c.Checksum(c.Algo, other)
+				bad := nearMiss(good, s3c.Checksum(c.Algo, other), c.Near, c.Arg)
 				b = bytes.Replace(b, []byte(good), []byte(bad), 1)
 				effective = !bytes.Equal(b, enc.Bytes)
 			}
@@ -467,6 +516,9 @@ func genCase(t *rapid.T) caseA {
 		}
 	}
 	c.Arg = rapid.IntRange(0, 1000).Draw(t, "arg")
+	if c.Corrupt == "md5" || c.Corrupt == "checksum-header" || c.Corrupt == "trailer-checksum" {
+		c.Near = rapid.SampledFrom([]int{0, 0, 1, 2, 3}).Draw(t, "near")
+	}
 	return c
 }
 
@@ -508,7 +560,10 @@ func testC06(t *testing.T, proc bool) {
 			sz = "size:0"
 		}
 		cls := []string{fmt.Sprintf("proc:%v", proc), "corrupt:" + c.Corrupt, "mode:" + c.Mode, "target:" + c.Target, "prior:" + c.Prior, sz}
-		ev.Case(fmt.Sprintf("%s|%s|%s|%s|%s|%v|%v|%d|%v|%v|%v|%v|%v", c.Target, c.Prior, c.Mode, c.Corrupt, c.Algo, c.WithMD5, c.WithCsum, c.Size, c.Chunks, c.Sidecar, c.NoOTmp, c.Versioning, proc), c.Corrupt != "none", cls...)
+		if c.Corrupt == "md5" || c.Corrupt == "checksum-header" || c.Corrupt == "trailer-checksum" {
+			cls = append(cls, []string{"digest:of-other-content", "digest:letter-case-changed", "digest:last-data-bit-changed", "digest:padding-bit-changed"}[c.Near])
+		}
+		ev.Case(fmt.Sprintf("%s|%s|%s|%s|%s|%v|%v|%d|%v|%v|%v|%v|%v|%d", c.Target, c.Prior, c.Mode, c.Corrupt, c.Algo, c.WithMD5, c.WithCsum, c.Size, c.Chunks, c.Sidecar, c.NoOTmp, c.Versioning, proc, c.Near), c.Corrupt != "none", cls...)
 		ev.Sample("corrupt:"+c.Corrupt, 1, c)
 		if err != nil {
 			if strings.HasPrefix(err.Error(), "SETUP") {
